@@ -169,7 +169,7 @@ func (c *Ctx) Report(v *Violation) {
 	c.EvS("VIOLATION " + v.Clause + " " + v.Key)
 	if c.ReplayDir != "" {
 		os.MkdirAll(c.ReplayDir, 0o755)
-		p := filepath.Join(c.ReplayDir, fmt.Sprintf("%s-%d-%d-%s.json", c.Prop, c.Seed, c.run, sanitize(v.Clause)))
+		p := filepath.Join(c.ReplayDir, fmt.Sprintf("%s-%d-%d-%s.json", c.Prop, c.Seed, c.run, sanitize(v.Key)))
 		v.ReplayPath = p
 		data, _ := json.MarshalIndent(v, "", " ")
 		os.WriteFile(p, append(data, '\n'), 0o644)
